@@ -322,8 +322,12 @@ Definition read_egroups (bs : list pblock) (all_ids : list Z)
   | [] =>
     let names := captures "EGRP=" (extract_headers "!EGROUP" bs) in
     vals <- mapM parse_ints_rank1 (extract_blocks "!EGROUP" bs) ;;
-    Ok (fold_left (fun d kv => dict_set (fst kv) (snd kv) d)
-                  (combine names vals) [("ALL", all_ids)])
+    (* _merge_groups (when present): blocks of the same name are appended *)
+    let pairs := if merge_egroups
+                 then fold_left (fun acc kv => dict_append (fst kv) (snd kv) acc)
+                                (combine names vals) []
+                 else combine names vals in
+    Ok (fold_left (fun d kv => dict_set (fst kv) (snd kv) d) pairs [("ALL", all_ids)])
   end.
 
 Definition read_sections (bs : list pblock)
@@ -341,8 +345,15 @@ Definition starts_alpha (f : string) : bool :=
 
 Definition read_initial (bs : list pblock) (nodes : list (Z * list dec))
   : result (list (string * list (Z * list dec))) :=
-  let types := captures "TYPE=" (extract_headers "!INITIAL CONDITION" bs) in
-  let blocks := extract_blocks "!INITIAL CONDITION" bs in
+  let types0 := captures "TYPE=" (extract_headers "!INITIAL CONDITION" bs) in
+  let blocks0 := extract_blocks "!INITIAL CONDITION" bs in
+  (* blocks of the same type are concatenated first (when the merge loop is present) *)
+  let merged := if merge_initial
+                then fold_left (fun acc kv => dict_append (fst kv) (snd kv) acc)
+                               (combine types0 blocks0) []
+                else combine types0 blocks0 in
+  let types := map fst merged in
+  let blocks := map snd merged in
   if existsb (existsb (fun fs => match fs with f :: _ => starts_alpha f | [] => false end))
              blocks
   then Err "node group name in !INITIAL CONDITION: outside the model"
